@@ -51,6 +51,7 @@ OBLIGATIONS = [
     "Grog.C11.old_accepts_escaping_dir",
     "Grog.C11.old_rejects_self_overlap",
     "Grog.C11.old_accepts_dot_overlap",
+    "Grog.C11.old_accepts_escaping_glob",
 ]
 ASSUMPTIONS = [
     "workspace root is an absolute path (config.MustFindWorkspaceRoot)",
@@ -79,8 +80,10 @@ def parse_out(spec):
     return {"k": "file", "id": spec}
 
 
-def T(pkg, name, deps=(), outs=(), inputs=(), testonly=False, cmd=True, bin=""):
-    return {"pkg": pkg, "name": name, "deps": [dict(d) for d in deps], "inputs": list(inputs),
+def T(pkg, name, deps=(), outs=(), inputs=(), testonly=False, cmd=True, bin="", globs=()):
+    """inputs: resolved inputs (for a literal input: itself); globs: input patterns with glob characters as the user
+    wrote them (the loader keeps them in UnresolvedInputs and puts their matches into Inputs)"""
+    return {"pkg": pkg, "name": name, "deps": [dict(d) for d in deps], "inputs": list(inputs), "globs": list(globs),
             "outs": [parse_out(o) for o in outs], "bin": bin, "testonly": testonly, "cmd": cmd}
 
 
@@ -111,7 +114,7 @@ def graph(nodes, ws=WS, grouping="single"):
             pkgs.append({"targets": [n] if kind == "t" else [], "aliases": [n] if kind == "a" else []})
     req = {"op": "analysis.analyze", "ws": ws, "pkgs": pkgs}
     if os.environ.get("C11_MODEL_CFG") == "old":    # development aid: compare against the model of the tree before the fix: commits
-        req["cfg"] = {"skipSelf": False, "checkDirs": False, "dotRoot": False}
+        req["cfg"] = {"skipSelf": False, "checkDirs": False, "dotRoot": False, "checkGlobs": False}
     return req
 
 
@@ -208,9 +211,9 @@ def reference_defects(g):
                         dotdir = pa is not None and ((a["k"] == "dir" and pa == []) or (b["k"] == "dir" and pb == [])) and pa != pb
                         defects.add(("conflict", "dir-dot" if dotdir else ""))
     for t in targets:
-        for i in t["inputs"]:
+        for i in t["inputs"] + t.get("globs", []):      # a pattern that climbs out of the package escapes it too
             if i.startswith("/") or _norm(i.split("/"), False)[:1] == [".."]:
-                defects.add(("input-escape", ""))
+                defects.add(("input-escape", "glob" if i in t.get("globs", []) and i not in t["inputs"] else ""))
         for o in all_outs(t):
             if o["k"] == "docker":
                 continue
@@ -343,10 +346,17 @@ def sibling_graphs():
                 yield [("t", T(pkg, "owner", [L(pkg, "al")], [dspell, sib_f])), ("a", A(pkg, "al", L(pkg, "inside"))), ("t", b1)]
 
 
+GLOB_SPELLINGS = ["*.txt", "**/*.go", "src/*.c", "a/../*.x", "../*.txt", "/abs/*.txt", "src/../../*.c", "../**", "../?.txt", "./../[ab].c",
+                  "../{x,y}.h", "sub/**/../../../*.c"]
+
+
 def input_graphs():
     for p in ["", "a", "a/b"]:
         for i in INPUT_SPELLINGS:
             yield [("t", T(p, "t", [], ["o"], inputs=["ok.txt", i]))]
+        for g in GLOB_SPELLINGS:
+            yield [("t", T(p, "t", [], ["o"], inputs=["ok.txt"], globs=[g]))]
+            yield [("t", T(p, "t", [], ["o"], inputs=["ok.txt", "m1.txt"], globs=["*.txt", g]))]
 
 
 def test_dep_graphs():
@@ -493,6 +503,8 @@ def sig_of(g, impl, ref):
         # the most specific classes first
         if refk == ["output-escape"] and all(d == "dir" for k, d in ref):
             return "accepted:directory-output-outside-workspace"
+        if refk == ["input-escape"] and all(d == "glob" for k, d in ref):
+            return "accepted:input-glob-pattern-outside-package"
         if refk == ["conflict"] and all(d == "dir-dot" for k, d in ref):
             return "accepted:overlap-with-directory-output-dot"
         return "accepted:" + ",".join(sorted(set(tags)))
@@ -927,7 +939,7 @@ def write_workspace(root, nodes, trace, files=None):
                 cmds.append("mkdir -p \"$(dirname '%s')\" && printf '#!/bin/sh\\necho \"BIN %s\" >> %s\\n' > '%s' && chmod +x '%s'"
                             % (n["bin"], lab(n), trace, n["bin"], n["bin"]))
             t = {"name": n["name"], "command": " && ".join(cmds), "dependencies": [lab(d) for d in n["deps"]],
-                 "inputs": n["inputs"], "outputs": outs}
+                 "inputs": n["inputs"] + n.get("globs", []), "outputs": outs}
             if n["bin"]:
                 t["bin_output"] = n["bin"]
             tags = (["testonly"] if n["testonly"] else []) + list(n.get("tags", []))
@@ -963,6 +975,9 @@ CLI_CASES = [
     ("file-in-dir", [("t", T("", "a", [], ["dir::d"])), ("t", T("", "b", [], ["d/sub/f"]))], False),
     ("same-image", [("t", T("", "a", [], ["docker::img"])), ("t", T("p", "b", [], ["docker::img"]))], False),
     ("input-escape", [("t", T("p", "a", [], ["o"], inputs=["../secret"]))], False),
+    ("glob-input-escape", [("t", T("p", "a", [], ["o"], inputs=["ok.txt"], globs=["../*.txt"]))], False),
+    ("glob-input-absolute", [("t", T("p", "a", [], ["o"], globs=["/etc/*.conf"]))], False),
+    ("glob-input-inside", [("t", T("p", "a", [], ["o"], inputs=["ok.txt"], globs=["*.txt", "sub/../*.md"]))], True),
     ("output-escape", [("t", T("", "a", [], ["../o"]))], False),
     ("dir-output-escape", [("t", T("p", "a", [], ["dir::../../escaped_dir"]))], False),
     ("test-dep", [("t", T("", "lib", [L("", "x_test")], ["o"])), ("t", T("", "x_test"))], False),
